@@ -150,7 +150,7 @@ def run(ctx):
 
     # ---- C12.5 list semantics ---------------------------------------------------------------------------------------
     f_ml = repo.func('MatcherList.matches')
-    mp = paths_of(repo, f_ml, unroll=2)
+    mp = paths_of(repo, f_ml, unroll=3 if ctx.tier == 'thorough' else 2)
     nml = 0
     for p in mp:
         if p.outcome[0] != 'return':
